@@ -197,6 +197,7 @@ def run_for_property(prop, tier):
     failing = [h for h, e in zip(sel, hs) if e['status'] == 'FAILURE']
     for h in failing:
         ent = [e for e in hs if e['name'] == h['name']][0]
+        ent['first_output'] = ent.get('output')
         r2 = run_harnesses([h], playback=True, timeout=3000)
         blk = re.sub(r'^Thread \d+: ', '', r2['out'], flags=re.M)
         ent['output'] = blk[-6000:]
@@ -204,9 +205,18 @@ def run_for_property(prop, tier):
         if 'VERIFICATION:- SUCCESSFUL' in blk and cls != 'FAILURE':
             ent['status'] = 'SUCCESS'
             continue
-        ent['status'] = cls
         if cls != 'FAILURE':
+            # the re-run with concrete playback ran out of budget: the first run's verdict stands when CBMC reported a
+            # failed check there (a property failure, not a resource failure); the violation then carries no replayed input
+            first = ent.get('first_output') or ''
+            if 'Failed Checks:' in first and classify_failure(first) == 'FAILURE':
+                ent['status'] = 'FAILURE'
+                ent['output'] = first[-6000:]
+                ent['witness'] = {'concrete_values': None, 'replayed': False, 'note': 'concrete playback re-run exceeded the resource budget (%s)' % cls}
+            else:
+                ent['status'] = cls
             continue
+        ent['status'] = cls
         vals = extract_playback(blk)
         if vals is not None:
             nr = native_replay(h, vals)
